@@ -845,7 +845,11 @@ func (h *packetHandlerMap) ReplaceWithClosed(ids []protocol.ConnectionID, connCl
 	time.AfterFunc(expiry, func() {
 		h.mutex.Lock()
 		for _, id := range ids {
-			delete(h.handlers, id)
+			// Only remove the closed connection. With zero-length connection IDs a new connection
+			// may have taken over this (empty) connection ID in the meantime.
+			if h.handlers[id] == handler {
+				delete(h.handlers, id)
+			}
 		}
 		if len(h.handlers) == 0 {
 			t := (*Transport)(h)
